@@ -410,15 +410,21 @@ def s16_region(bpj, harvest):
             srcs = sorted(srcs)
             for s_ in srcs[1:]:
                 dsu.union(srcs[0], s_)
+    # the feedback of a memory cell is locked to red (a producer wired to itself marks it)
+    locked = {dsu.find((src, sig)) for src, snk, sig, col, *m in harvest["edges"] if src == snk}
     adj = {}
-    for per_sink in groups.values():
+    for (snk_, _sig), per_sink in groups.items():
         classes = []
         for key, srcs in sorted(per_sink.items()):
+            if all(s_[0] == snk_ for s_ in srcs):
+                continue   # the consumer's own feedback is not an operand to be kept apart
             classes.append({dsu.find(s_) for s_ in srcs})
         for i, a in enumerate(classes):
             for b_ in classes[i + 1:]:
                 if a & b_:
                     return True   # two operands that must differ contain producers that must agree
+                if (a & locked) and (b_ & locked):
+                    return True   # both are locked to red
                 for x in a:
                     for y in b_:
                         adj.setdefault(x, set()).add(y)
